@@ -426,8 +426,9 @@ func (u *Unit) calleeEnv(st *State, fi *FuncInfo, ct *Contract, targs []types.Ty
 func (u *Unit) callByContract(st *State, fi *FuncInfo, targs []types.Type, args []Value, call *ast.CallExpr) []Value {
 	ct := u.cf.Funcs[fi.Key]
 	if ct == nil {
-		u.errorf("%s: call to %s which has no contract", u.pos(call), fi.Key)
-		return nil
+		// a helper without a contract is inlined (so extracting a helper function does not
+		// by itself make the caller unverifiable)
+		return u.inlineCall(st, fi, targs, args, call)
 	}
 	nparams := fi.Sig.Params().Len()
 	if fi.Sig.Recv() != nil {
@@ -960,4 +961,76 @@ func (u *Unit) loopModKinds(nodes ...ast.Node) map[string]bool {
 		})
 	}
 	return kinds
+}
+
+// inlineCall symbolically executes the body of a package function that has no
+// contract, in the caller's state. Supported: non-recursive helpers with a
+// single normal exit; panic exits propagate to the caller.
+func (u *Unit) inlineCall(st *State, fi *FuncInfo, targs []types.Type, args []Value, call *ast.CallExpr) []Value {
+	if u.inlineDepth > 3 || fi.Decl.Body == nil {
+		u.errorf("%s: call to %s which has no contract (not inlinable)", u.pos(call), fi.Key)
+		return nil
+	}
+	u.inlineDepth++
+	defer func() { u.inlineDepth-- }()
+	saveExits, saveResults, saveTsub := u.exits, u.results, u.curTsub
+	u.exits, u.results = nil, nil
+	tsub := map[*types.TypeParam]types.Type{}
+	for k, v := range saveTsub {
+		tsub[k] = v
+	}
+	for i, tp := range fi.TParam {
+		if i < len(targs) {
+			tsub[tp] = targs[i]
+		}
+	}
+	u.curTsub = tsub
+	var objs []*types.Var
+	if fi.Sig.Recv() != nil {
+		objs = append(objs, fi.Sig.Recv())
+	}
+	for i := 0; i < fi.Sig.Params().Len(); i++ {
+		objs = append(objs, fi.Sig.Params().At(i))
+	}
+	for i, o := range objs {
+		if i < len(args) {
+			st.vars[o] = args[i]
+		}
+	}
+	for i := 0; i < fi.Sig.Results().Len(); i++ {
+		r := fi.Sig.Results().At(i)
+		if r.Name() != "" && r.Name() != "_" {
+			st.vars[r] = u.zeroValue(st, r.Type())
+			u.results = append(u.results, r)
+		}
+	}
+	falls := u.execBlock(st, fi.Decl.Body.List)
+	var normal []*Exit
+	var panics []*Exit
+	for _, e := range u.exits {
+		if e.panic {
+			panics = append(panics, e)
+		} else {
+			normal = append(normal, e)
+		}
+	}
+	for _, f := range falls {
+		var rets []Value
+		for _, r := range u.results {
+			rets = append(rets, f.vars[r])
+		}
+		normal = append(normal, &Exit{st: f, rets: rets})
+	}
+	u.exits, u.results, u.curTsub = append(saveExits, panics...), saveResults, saveTsub
+	if len(normal) != 1 {
+		if len(normal) == 0 {
+			st.dead = true
+			return nil
+		}
+		u.errorf("%s: helper %s without contract has %d normal exits (only single-exit helpers are inlined)", u.pos(call), fi.Key, len(normal))
+		return nil
+	}
+	// continue in the helper's exit state
+	*st = *normal[0].st
+	return normal[0].rets
 }
